@@ -35,7 +35,7 @@ TRUSTED = [
 ASSUMPTIONS = [
     "rows are identified by an opaque id; both endtime encodings (endtime field, dt x length) are fed to the real code",
     "containment of a zero-length thing [t,t) is read as 'the instant t lies in the container' (b.time <= t < b.endt); for positive-length things this is the plain subset relation",
-    "sort_by_time: only the composite-key path is modelled (time span far below 2^63/(channels+1)); the float guard and the np.sort fallback are outside",
+    "sort_by_time: guard (float64), composite int64 key (wraps) and the np.sort(order=...) fallback are modelled; `id` stands for all remaining fields of the dtype in the fallback's tie-break",
     "int64 wrap-around not modelled",
 ]
 
@@ -289,7 +289,9 @@ def o_touch(t, c, w, out):
     for b, (l, r) in zip(c, got):
         el = sum(1 for a in t if a[1] <= b[0] - w)
         er = sum(1 for a in t if a[0] < b[1] + w)
-        if (l, r) != (el, er):
+        # a non-empty touching set fixes both indices; an empty one only asks for an empty slice (any l >= r would do,
+        # the exact pair is compared with the model by the correspondence)
+        if el < er and (l, r) != (el, er):
             return f"window of container {b[:2]} is ({l},{r}), definition gives ({el},{er})"
         for k, a in enumerate(t):
             if (l <= k < r) != touches(a, b, w):
@@ -313,23 +315,25 @@ def o_splittouch(t, c, w, out):
 def o_touchcore(t, c, w, out):
     if not (rows_sorted(t) and ends_sorted(t) and rows_sorted(c)):
         return None
-    return o_touch_counts(t, c, w, out)
-
-
-def o_touch_counts(t, c, w, out):
     got = parse_pairs(out[3:])
-    exp = [(sum(1 for a in t if a[1] <= b[0] - w), sum(1 for a in t if a[0] < b[1] + w)) for b in c]
-    if got != exp:
-        return f"_touching_windows != counts of things left of the window: expected {exp}"
+    if len(got) != len(c):
+        return "one window per container expected"
+    for b, (l, r) in zip(c, got):
+        el = sum(1 for a in t if a[1] <= b[0] - w)
+        er = sum(1 for a in t if a[0] < b[1] + w)
+        if el < er and (l, r) != (el, er):
+            return f"_touching_windows: window of container {b[:2]} is ({l},{r}), definition gives ({el},{er})"
+        if any((l <= k < r) != touches(a, b, w) for k, a in enumerate(t)):
+            return f"_touching_windows: window ({l},{r}) of container {b[:2]} is not the set of touching things"
     return None
 
 
 def prevnext_pre(t, c):
-    """documented: things sorted and non-overlapping; intervals sorted and non-overlapping. The theorem
-    (prev_next_spec) does not need the things to be non-overlapping, so neither does the oracle. A zero-length interval
-    sitting exactly on a thing's edge makes 'previous' / 'next' ambiguous, so the definition is compared for
-    positive-length intervals and non-negative-length things."""
-    return rows_sorted(t) and rows_sorted(c) and non_overlap(c) and non_neg(t) and positive(c)
+    """the documented precondition, nothing wider: things sorted and non-overlapping, intervals sorted and
+    non-overlapping; lengths: intervals positive (a zero-length interval sitting on a thing's edge makes 'previous' / 'next'
+    ambiguous), things non-negative. Outside of it (e.g. overlapping things, for which prev_next_spec also holds) only the
+    agreement with the model is checked, so that a rewrite exploiting 'events cannot overlap' is not a false alarm."""
+    return rows_sorted(t) and rows_sorted(c) and non_overlap(t) and non_overlap(c) and non_neg(t) and positive(c)
 
 
 def o_prevnext(t, c, extra, out):
@@ -646,29 +650,68 @@ def oracle_sort(case, out):
         return "result is not a permutation of the input"
     key = (lambda r: (r[0], r[1])) if case["ch"] else (lambda r: r[0])
     res = [by_id[k] for k in got]
+    span, m1 = sort_span_m(case)
     if any(key(res[i]) > key(res[i + 1]) for i in range(len(res) - 1)):
-        return "result not sorted by (time, channel)"
+        where = ""
+        if span * m1 > 2**63 - 11 - m1 and not float_guard(span, m1):
+            where = (f" [guard band: span*(maxch+1) = 2^63{span * m1 - 2**63:+d} with maxch+1 = {m1}: the float64 guard keeps the "
+                     "composite-key path and the int64 key wraps]")
+        return "result not sorted by (time, channel)" + where
     pos = {r[2]: i for i, r in enumerate(rows)}
     if any(key(res[i]) == key(res[i + 1]) and pos[res[i][2]] > pos[res[i + 1][2]] for i in range(len(res) - 1)):
-        where = " [slow path: time span > (2^63-10)/(channels+1), np.sort(order=...)]" if sort_slow_path(case) else ""
+        where = ""
+        if sort_slow_path(case):
+            where = (" [slow path: span*(maxch+1) > 2^63-11, np.sort(order=...) orders rows that tie on (time, channel) by "
+                     "their remaining fields]")
         return "rows with equal key changed their relative order (sort not stable)" + where
     return None
 
 
-def sort_slow_path(case):
-    """does sort_by_time leave its composite-key path? (exact integer form of the float guard; the generators stay away
-    from the narrow band where float64 rounding could decide differently)"""
+def sort_span_m(case):
+    """(time span, max shifted channel + 1) as sort_by_time computes them"""
     rows = case["rows"]
     if not rows:
-        return False
+        return 0, 1
     if case["ch"]:
         chans = [r[1] for r in rows]
         m = min(chans)
         mx = max(c - m for c in chans) if m < 0 else max(chans)
     else:
         mx = 1
-    span = max(r[0] for r in rows) - min(r[0] for r in rows)
-    return span * (mx + 1) > 2**63 - 11
+    return max(r[0] for r in rows) - min(r[0] for r in rows), mx + 1
+
+
+def sort_slow_path(case):
+    """would sort_by_time leave its composite-key path if the guard were evaluated exactly?"""
+    span, m1 = sort_span_m(case)
+    return span * m1 > 2**63 - 11
+
+
+def fl53(n):
+    """int -> float64 -> int (round to nearest, ties to even)"""
+    if n < 0:
+        return -fl53(-n)
+    if n < 2**53:
+        return n
+    e = n.bit_length() - 53
+    q, r = n >> e, n & ((1 << e) - 1)
+    half = 1 << (e - 1)
+    if r > half or (r == half and q & 1):
+        q += 1
+    return q << e
+
+
+def float_guard(span, m1):
+    """`span > (2**63 - 11) / m1` as numpy evaluates it (both sides float64); only used to CLASSIFY generated cases
+    (inside / outside the guard band), never to predict an output"""
+    return float(fl53(span)) > float(2**63 - 11) / float(m1)
+
+
+def sort_regular(case):
+    """outside the guard band: the float guard decides like the exact one and the int64 key cannot wrap"""
+    span, m1 = sort_span_m(case)
+    exact = span * m1 > 2**63 - 11
+    return span < 2**63 and float_guard(span, m1) == exact and (exact or span * m1 + m1 - 1 < 2**63)
 
 
 def impl_splitraw(case):
@@ -793,36 +836,197 @@ def epoch_components(ctx):
                    rule="times T0 + 0..4 (small span: composite-key path), 0..20 rows with many ties", branch=lambda c, o: f"ch={c['ch']}")
 
 
-def sort_slow_path_component(ctx):
-    """time span above (2^63-10)/(channels+1): sort_by_time falls back to np.sort(order=...)"""
+def dedupe_keys(rows, ch):
+    """drop rows whose (time, channel) already occurred: stability is then vacuous"""
+    seen, out = set(), []
+    for r in rows:
+        k = (r[0], r[1]) if ch else r[0]
+        if k not in seen:
+            seen.add(k)
+            out.append(r)
+    return [(t, c, i) for i, (t, c, _) in enumerate(out)]
+
+
+def sort_regime_components(ctx):
+    """sort_by_time beyond small spans: the band between 4e6 and 5e18 ns, the float64 landmarks (2^53), the guard
+    threshold (exactly evaluated: span*(maxch+1) = 2^63-11) from far below to far above, with and without channel field"""
     rng = ctx.rng
     big = 5 * 10**18
+    # (a) slow path without ties in (time, channel)
     cases = []
     opts = [(t, ch) for t in (0, 1, big, big + 1) for ch in (0, 1)]
     for n in range(2, 5):
-        for combo in itertools.product(opts, repeat=n):
-            if max(c[0] for c in combo) - min(c[0] for c in combo) < big - 1:
+        for combo in itertools.permutations(opts, n):
+            if n == 4 and hash(combo) % (2 if ctx.thorough else 12):
                 continue
-            if n == 4 and hash(combo) % (1 if ctx.thorough else 4):
-                continue
-            ids = list(range(n))
-            if hash(combo) % 2:
-                ids.reverse()
-            cases.append(dict(rows=[(t, ch, i) for i, (t, ch) in zip(ids, combo)], ch=1))
-    for _ in range(ctx.pick(600, 4000)):
+            cases.append(dict(rows=[(t, ch, i) for i, (t, ch) in enumerate(combo)], ch=1))
+    for _ in range(ctx.pick(500, 4000)):
         n = rng.randint(2, 14)
-        base = rng.choice([0, 4 * 10**18])
-        rows = [(base + rng.choice([0, 0, 1, 2, big, big + 1]), rng.randint(rng.choice([0, -2]), 2), i) for i in range(n)]
-        rng.shuffle(rows)
+        base = rng.choice([0, 4 * 10**18, -4 * 10**18])
+        rows = [(base + rng.choice([0, 1, 2, 7, big, big + 1, big - 3]), rng.randint(rng.choice([0, -2]), 2), i) for i in range(n)]
         rows[0] = (base, rows[0][1], rows[0][2])
         rows[-1] = (base + big, rows[-1][1], rows[-1][2])
-        cases.append(dict(rows=rows, ch=int(rng.random() < 0.7)))
-    cases = [c for c in cases if sort_slow_path(c)]  # a single channel value (M = 1) can never exceed the guard within int64
+        rng.shuffle(rows)
+        ch = int(rng.random() < 0.7)
+        cases.append(dict(rows=dedupe_keys(rows, ch), ch=ch))
+    cases = [c for c in cases if sort_slow_path(c) and sort_regular(c)]
     ctx.correspond("sort_by_time/slow-path", cases, impl_sort, op_sort, oracle_sort, nontrivial=lambda c, o: len(c["rows"]) >= 3,
-                   rule="time span 5e18 ns (> (2^63-10)/(channels+1), far from the float rounding band) with 1..3 channels or no channel field: "
-                        "all small arrays over times (0,1,5e18,5e18+1) x channels (0,1) with ids in input or reversed order, and random arrays with ties; "
-                        "model: lexicographic by (time, channel, remaining field)", branch=lambda c, o: f"ch={c['ch']}",
-                   in_hyp=lambda c, o: False)
+                   rule="time span 5e18 ns (> (2^63-10)/(channels+1), far from the guard band) with 2..5 channel values or no channel field, rows with pairwise "
+                        "different (time, channel): all small arrays over times (0,1,5e18,5e18+1) x channels (0,1) and random arrays; model: lexicographic by "
+                        "(time, channel, remaining field)", branch=lambda c, o: f"ch={c['ch']}")
+    # (b) the open finding: ties on the slow path (kept to five probes)
+    d54 = 4_700_000_000_000_000  # 54.4 days in ns: with 2000 channels this is already beyond the guard
+    ties = [dict(rows=[(0, 1, 3), (0, 1, 2), (big, 0, 1)], ch=1),
+            dict(rows=[(0, 0, 3), (0, 0, 2), (big, 0, 1)], ch=0),
+            dict(rows=[(big, 1, 5), (0, 1, 4), (0, 1, 2), (big, 1, 1), (0, 1, 3)], ch=1),
+            dict(rows=[(0, 1999, 3), (0, 1999, 2), (d54, 0, 1)], ch=1),
+            dict(rows=[(T0 + d54, 0, 4), (T0, 1999, 3), (T0, 1999, 2), (T0, 7, 1)], ch=1)]
+    ctx.correspond("sort_by_time/slow-path-ties", ties, impl_sort, op_sort, oracle_sort, rule="five probes of the open finding C17-sort-slow-path-not-stable: rows that tie on (time, channel) "
+                   "with decreasing ids on the slow path, at 5e18 ns with 2 channels and at 54 days with 2000 channels", in_hyp=lambda c, o: False)
+    # (c) spans from 4e6 to 5e18, outside the guard band: full oracle (keys pairwise different, so stability is vacuous on the slow path)
+    cases = []
+    for _ in range(ctx.pick(2500, 20000)):
+        ch = int(rng.random() < 0.55)
+        maxc = rng.choice([1, 1, 2, 3, 7, 100, 1999]) if ch else 1
+        m1 = maxc + 1
+        thr = (2**63 - 11) // m1
+        kind = rng.choice(["2^53", "2^53", "log", "log", "below-thr", "above-thr"])
+        if kind == "2^53":
+            span = 2**53 + rng.randint(-4, 4) * rng.choice([1, 1, 2])
+        elif kind == "log":
+            span = int(4 * 10**6 * (1.25 * 10**12) ** rng.random()) + rng.randint(0, 3)
+        elif kind == "below-thr":
+            span = thr - rng.choice([1, 2, 5, 100]) * max(1, thr >> rng.choice([30, 40, 48]))
+        else:
+            span = thr + rng.choice([1, 2, 5, 100]) * max(1, thr >> rng.choice([30, 40, 48]))
+        base = rng.choice([0, 0, -2**62, T0])
+        if base + span > 2**63 - 1 or span < 8:
+            base = -2**62 if span > 2**62 else 0
+            if base + span > 2**63 - 1:
+                continue
+        k = rng.randint(1, 8)
+        times = [0, span] + [rng.choice([0, 1, 2, 3, span - 1, span - 2, span - 3, span // 2, span // 2 + 1, 2**53, 2**53 + 1]) for _ in range(k)]
+        times = [t for t in times if 0 <= t <= span]
+        rows = [(base + t, (rng.choice([0, maxc, rng.randint(0, maxc)]) if ch else 0), i) for i, t in enumerate(times)]
+        if ch:
+            rows[0] = (rows[0][0], maxc, 0)
+        rng.shuffle(rows)
+        case = dict(rows=dedupe_keys(rows, ch), ch=ch, kind=kind)
+        if sort_regular(case):
+            cases.append(case)
+    ctx.correspond("sort_by_time/spans", cases, impl_sort, op_sort, oracle_sort, nontrivial=lambda c, o: len(c["rows"]) >= 3,
+                   rule="time spans log-uniform in 4e6..5e18 ns, at 2^53 +- 8, and from 2^-30 relative below to above the guard threshold (2^63-11)/(maxch+1), "
+                        "maxch+1 in (2,3,4,8,101,2000) or no channel field, offsets 0 / -2^62 / T0; neighbouring times at both ends, the middle and 2^53; "
+                        "only inputs outside the guard band (sortRegular), keys pairwise different",
+                   branch=lambda c, o: f"ch={c['ch']}:{c['kind']}:{'slow' if sort_slow_path(c) else 'fast'}", in_hyp=lambda c, o: True)
+    # (d) inside and right next to the guard band: the model (float64 guard, int64 wrap) must give what the code gives
+    cases, probes = [], []
+    for _ in range(ctx.pick(1500, 12000)):
+        ch = int(rng.random() < 0.6)
+        maxc = rng.choice([1, 1, 2, 3, 5, 7, 10, 100, 1999]) if ch else 1
+        m1 = maxc + 1
+        span = 2**63 // m1 + rng.choice([rng.randint(-3, 3), rng.randint(-40, 40), rng.randint(0, 1100), rng.randint(-3000, 3000)])
+        base = rng.choice([0, -2**62, T0])
+        if base + span > 2**63 - 1:
+            base = -2**62 if span > 2**62 else 0
+        k = rng.randint(1, 5)
+        times = [0, span] + [rng.choice([0, 1, 2, span - 1, span - 2, span // 2, span // 2 + 1]) for _ in range(k)]
+        rows = [(base + t, (rng.choice([0, maxc]) if ch else 0), i) for i, t in enumerate(times)]
+        if ch:
+            rows[0] = (rows[0][0], maxc, 0)
+            rows[1] = (rows[1][0], maxc, 1)
+        rng.shuffle(rows)
+        cases.append(dict(rows=dedupe_keys(rows, ch), ch=ch))
+    ctx.correspond("sort_by_time/guard-band", cases, impl_sort, op_sort,
+                   lambda c, o: oracle_sort(c, o) if sort_regular(c) else None, nontrivial=lambda c, o: not sort_regular(c),
+                   rule="span = 2^63 // (maxch+1) + offsets in -3..3, -40..40, 0..1100, -3000..3000 (maxch+1 in 2,3,4,6,8,11,101,2000): inside the band only model agreement is checked (float64 guard, "
+                        "int64 key wrap are modelled); the band itself is the open finding probed in sort_by_time/guard-band-probe",
+                   branch=lambda c, o: "regular" if sort_regular(c) else "band", in_hyp=lambda c, o: sort_regular(c))
+    probes = [dict(rows=[(0, 0, 0), (5, 1999, 1), (4611686018427388, 1999, 2)], ch=1),     # 53.4 days, 2000 channels
+              dict(rows=[(4611686018427388004, 1, 0), (0, 0, 1), (5, 1, 2)], ch=1),        # the reviewer's input
+              dict(rows=[(0, 0, 0), (5, 0, 1), (2**62 + 100, 0, 2)], ch=0)]               # no channel field
+    ctx.correspond("sort_by_time/guard-band-probe", probes, impl_sort, op_sort, oracle_sort,
+                   rule="three probes of the open finding C17-sort-guard-band-key-wrap", in_hyp=lambda c, o: False)
+    # (e) what the hypothesis of the sort theorems means: sortRegular / exact guard / float guard of the Lean model
+    #     against the classification used above
+    allc = cases[: ctx.pick(800, 4000)] + probes + ties
+    ctx.correspond("sort_by_time/regime-deciders", allc,
+                   lambda c: "ok " + "".join(str(int(b)) for b in (sort_regular(c), sort_slow_path(c), float_guard(*sort_span_m(c)))),
+                   lambda c: f"c17.sortreg {int(c['ch'])} {sl.show_rows(c['rows'])}", None,
+                   rule="sortRegular / sortSpanTooLarge / sortTooLargeFloat of the Lean model vs the classification the generators and oracles use, on guard-band cases and probes")
+
+
+# -- sort_enforcement.py
+def impl_enforce(case):
+    from strax import sort_enforcement as SE
+    kind, what = case["kind"], case["what"]
+
+    def f():
+        if what == "stablesort":
+            return sl.show_ints(strax.stable_sort(np.array(case["arr"], dtype=np.int64), kind=kind))
+        if what == "stableargsort":
+            return sl.show_ints(strax.stable_argsort(np.array(case["arr"], dtype=np.int64), kind=kind))
+        if what == "sortkind":
+            rows = case["rows"]
+            a = np.zeros(len(rows), dtype=DT_CH)
+            for i, (t, c, k) in enumerate(rows):
+                a[i]["time"], a[i]["channel"], a[i]["id"] = t, c, k
+            ch = a["channel"].astype(np.int64)
+            return sl.show_ints(G._sort_by_time_and_channel(a, ch, ch.max() + 1, kind)["id"])
+        t, c = sl.mk_array(case["t"]), sl.mk_array(case["c"])
+        return show_pairs(G._touching_windows(t["time"], strax.endtime(t), c["time"], strax.endtime(c), window=case["w"], endtime_sort_kind=kind))
+    try:
+        return "ok " + f()
+    except SE.SortingError:
+        return "err SortingError"
+    except Exception as e:  # noqa: BLE001
+        return "err " + sl.err_name(e)
+
+
+def op_enforce(case):
+    kind, what = case["kind"], case["what"]
+    if what in ("stablesort", "stableargsort"):
+        return f"c17.{what} {kind} {sl.show_ints(case['arr'])}"
+    if what == "sortkind":
+        return f"c17.sortkind {kind} 1 {sl.show_rows(case['rows'])}"
+    return f"c17.touchkind {kind} {sl.show_rows(case['t'])} {sl.show_rows(case['c'])} {case['w']}"
+
+
+def oracle_enforce(case, out):
+    if case["kind"] != "mergesort":
+        return None if out == "err SortingError" else f"sort kind {case['kind']!r} not rejected with SortingError: {out}"
+    if out.startswith("err"):
+        return f"mergesort rejected: {out}"
+    if case["what"] == "stablesort":
+        return None if parse_ints(out[3:]) == sorted(case["arr"]) else "stable_sort(kind='mergesort') did not sort"
+    if case["what"] == "stableargsort":
+        arr = case["arr"]
+        exp = sorted(range(len(arr)), key=lambda i: arr[i])  # Python's sort is stable
+        return None if parse_ints(out[3:]) == exp else f"stable_argsort != stable order of indices: expected {exp}"
+    return None  # the kernels with kind='mergesort' are covered by their own components
+
+
+def enforcement_component(ctx):
+    rng = ctx.rng
+    cases = []
+    kinds = ["mergesort", "quicksort", "heapsort", "stable", "mergesort"]
+    for _ in range(ctx.pick(300, 2000)):
+        kind = rng.choice(kinds)
+        what = rng.choice(["stablesort", "stableargsort", "sortkind", "touchkind"])
+        c = dict(kind=kind, what=what)
+        if what in ("stablesort", "stableargsort"):
+            c["arr"] = [rng.randint(0, 5) * rng.choice([1, 1, 10**17]) for _ in range(rng.randint(0, 30))]
+        elif what == "sortkind":
+            c["rows"] = [(rng.randint(0, 3), rng.randint(0, 2), i) for i in range(rng.randint(1, 24))]
+        else:
+            c["t"] = rnd_things(rng, rng.randint(1, 5), 10, ends_sorted_too=True)
+            c["c"] = rnd_things(rng, rng.randint(1, 3), 10)
+            c["w"] = rng.randint(-1, 2)
+        cases.append(c)
+    ctx.correspond("sort_enforcement", cases, impl_enforce, op_enforce, oracle_enforce, nontrivial=lambda c, o: True,
+                   rule="strax.stable_sort / strax.stable_argsort on integer arrays with ties, _sort_by_time_and_channel(sort_kind=...) and "
+                        "_touching_windows(endtime_sort_kind=...) with kind in (mergesort, quicksort, heapsort, stable): everything but mergesort must raise SortingError",
+                   branch=lambda c, o: f"{c['what']}:{c['kind']}:{o.split(' ')[0]}")
 
 
 def tick(ctx, label):
@@ -1080,14 +1284,15 @@ def _run(ctx):
                         "and every array of <= 5 rows over times (0,1,3) without channel field", branch=lambda c, o: f"ch={c['ch']}")
     cases = []
     for _ in range(ctx.pick(3000, 30000)):
-        n = rng.randint(0, 16)
+        n = rng.randint(0, 40)
         t0 = rng.choice([0, 10**9, 16 * 10**17])
         lo = rng.choice([0, 0, -1, -3])
         rows = [(t0 + rng.randint(0, 4) * rng.choice([1, 1, 10**6]), rng.randint(lo, 5), i) for i in range(n)]
         cases.append(dict(rows=rows, ch=int(rng.random() < 0.8)))
     ctx.correspond("sort_by_time/random", cases, impl_sort, op_sort, oracle_sort, nontrivial=lambda c, o: len(c["rows"]) >= 2,
-                   rule="random 0..16 rows, many ties in (time, channel), negative channels, large time offsets (span stays far below the float guard)")
-    sort_slow_path_component(ctx)
+                   rule="random 0..40 rows, many ties in (time, channel), negative channels, large time offsets (span stays far below the float guard)")
+    sort_regime_components(ctx)
+    enforcement_component(ctx)
 
     tick(ctx, "before section 8")
     # ---------------------------------------------------------------- 8. epoch-scale timestamps
